@@ -20,7 +20,7 @@ func init() {
 			"R4 every loop of the lexer/parser/splitter has a progress event (token consumption while the kind state excludes <eof>, or a strictly increasing cursor) on each feasible cycle. " +
 			"R5 the error result of entry points carries only MultiError / *Error, node results of single-node functions are never nil. " +
 			"Decides: containment of syntax-error panics, recovery discipline, loop progress. Does not decide: run-time panics from byte arithmetic (index/slice bounds), recursion depth.",
-		Rules: []ruleFn{ruleC03R1, ruleC03R2, ruleC03R3, ruleC03R4, ruleC03R5, ruleC03R6, ruleC13R3, ruleC03R8, ruleC20R3, ruleC20R4, ruleC03R9, ruleC13R6},
+		Rules: []ruleFn{ruleC03R1, ruleC03R2, ruleC03R3, ruleC03R4, ruleC03R5, ruleC03R6, ruleC13R3, ruleC03R8, ruleC20R3, ruleC20R4, ruleC03R9, ruleC13R6, ruleC03R10, ruleC03R11},
 	})
 }
 
@@ -686,4 +686,176 @@ func (w *World) dominatedByNonNegTest(b *ssa.BasicBlock, v ssa.Value) bool {
 		}
 	}
 	return false
+}
+
+
+// ruleC03R10: the quoting helpers with a documented domain (token.QuoteSQLIdent reads s[0]: names are non-empty) are
+// called by the parser and the lexer only with the spelling of an identifier token — the one kind of token whose
+// AsString the lexer never leaves empty. An error message that quotes "the current token" at a place where that token
+// can be a keyword, a punctuation or <eof> panics with an index error, which no recovery point turns into a *Error.
+func ruleC03R10(w *World, r *Report) {
+	const rule = "C03/R10"
+	r.rule(rule, "every call of a quoting helper that requires a non-empty name (token.QuoteSQLIdent) outside package ast passes the AsString of a token that is an identifier at that point: the result of expect(<ident>), or the current token where the token-kind analysis finds only <ident>", 1)
+	tk := w.TKAI()
+	var targets []*ssa.Function
+	for k := range lbRootPre {
+		name := strings.SplitN(k, ".", 2)[0]
+		if f := w.fn(w.Tok, name); f != nil {
+			targets = append(targets, f)
+		}
+	}
+	isTarget := func(f *ssa.Function) bool {
+		for _, t := range targets {
+			if t == f {
+				return true
+			}
+		}
+		return false
+	}
+	n := 0
+	for _, fn := range w.ModFns {
+		if fnPkgPath(fn) != modRoot {
+			continue
+		}
+		cnt := 0
+		for _, b := range fn.Blocks {
+			for _, in := range b.Instrs {
+				call, ok := in.(*ssa.Call)
+				if !ok || call.Call.StaticCallee() == nil || !isTarget(call.Call.StaticCallee()) || len(call.Call.Args) < 1 {
+					continue
+				}
+				n++
+				cnt++
+				construct := fmt.Sprintf("%s call %d in %s", call.Call.StaticCallee().Name(), cnt, funcName(fn))
+				arg := call.Call.Args[0]
+				why := "the argument is not the AsString of a token"
+				okArg := false
+				if addr, isLd := isLoad(arg); isLd {
+					if fa, isFA := addr.(*ssa.FieldAddr); isFA && fieldAddrName(fa) == "AsString" {
+						tokv := fa.X
+						switch {
+						case func() bool { _, cur := w.curTokenAddr(tokv); return cur }():
+							res := tk.Intra(fn)
+							sts := tk.statesBefore(res, call)
+							kinds := kEmpty()
+							for _, st := range sts {
+								if st != nil {
+									kinds = kinds.Join(st.cur)
+								}
+							}
+							allIdent := false
+							if ks, fin := kinds.Finite(); fin && len(ks) > 0 {
+								allIdent = true
+								for _, a := range ks {
+									if !isIdentish(a) {
+										allIdent = false
+									}
+								}
+							}
+							if allIdent {
+								okArg = true
+								why = "the current token is an identifier here"
+							} else {
+								why = "the current token can be " + kinds.String() + " here, and only identifier tokens have a non-empty AsString"
+							}
+						default:
+							if c, isCall := tokv.(*ssa.Call); isCall && c.Call.StaticCallee() != nil && c.Call.StaticCallee().Name() == "expect" && len(c.Call.Args) == 2 {
+								if k, isC := constString(c.Call.Args[1]); isC && k == "<ident>" {
+									okArg = true
+									why = "the token returned by expect(<ident>)"
+								} else {
+									why = "the token returned by expect is not required to be an identifier"
+								}
+							} else {
+								why = "the token whose AsString is quoted is neither the current token nor the result of expect(<ident>)"
+							}
+						}
+					}
+				}
+				if okArg {
+					r.ok(rule, construct, w.pos(call.Pos()), why)
+				} else {
+					r.bad(rule, construct, w.pos(call.Pos()), why+": "+call.Call.StaticCallee().Name()+" indexes the first byte of its argument — an index-out-of-range panic that no recovery point converts into a *Error")
+				}
+			}
+		}
+	}
+	if n == 0 {
+		r.trivial(rule, "calls of the quoting helpers outside package ast", "-", "none")
+	}
+}
+
+
+// ruleC03R11: the string-taking entry points (memefish.ParseStatement(filepath, s), …) hand back exactly what the
+// Parser method returned. A pre-check that returns early (a nesting limit, a size limit) with a nil node and an error
+// breaks the clause "a non-nil node together with the error" for inputs the Parser method handles.
+func ruleC03R11(w *World, r *Report) {
+	const rule = "C03/R11"
+	r.rule(rule, "the package-level Parse* functions (and the module functions whose results they pass on) never return a constant nil node: what they return is what a (*Parser).Parse* call returned — no early return path with a nil node and a hand-made error exists", 5)
+	entries := map[*ssa.Function]bool{}
+	for _, e := range w.parseEntryMethods() {
+		entries[e] = true
+	}
+	for _, fn := range w.ModFns {
+		if fnPkgPath(fn) != modRoot || fn.Parent() != nil || fn.Signature.Recv() != nil || !strings.HasPrefix(fn.Name(), "Parse") || !token.IsExported(fn.Name()) {
+			continue
+		}
+		if fn.Signature.Results().Len() != 2 {
+			continue
+		}
+		construct := "returns of memefish." + fn.Name()
+		bad := ""
+		n := 0
+		// the function itself and the module functions whose results it passes on (a shared generic helper): no return
+		// of theirs has a constant nil node; what is returned comes, in the end, from a (*Parser).Parse* call
+		seenFn := map[*ssa.Function]bool{}
+		work := []*ssa.Function{fn}
+		reachesEntry := false
+		for len(work) > 0 {
+			f := work[0]
+			work = work[1:]
+			if seenFn[f] || f.Blocks == nil {
+				continue
+			}
+			seenFn[f] = true
+			for _, b := range f.Blocks {
+				ret, ok := b.Instrs[len(b.Instrs)-1].(*ssa.Return)
+				if !ok || len(ret.Results) != 2 {
+					continue
+				}
+				n++
+				for _, o := range phiOrigins(ret.Results[0]) {
+					if c, isC := o.(*ssa.Const); isC && c.Value == nil {
+						bad = "the return at " + w.pos(ret.Pos()) + " hands back a nil node: the entry point does not return what (*Parser).Parse* returns for this input"
+						continue
+					}
+					if ex, ok := o.(*ssa.Extract); ok {
+						if c, ok := ex.Tuple.(*ssa.Call); ok {
+							for _, cal := range w.Callees(c) {
+								if entries[cal] {
+									reachesEntry = true
+								} else if fnPkgPath(cal) == modRoot {
+									work = append(work, cal)
+								}
+							}
+							if c.Call.StaticCallee() == nil && len(w.Callees(c)) == 0 {
+								reachesEntry = true // a function value handed in by the entry point (func(*Parser) (T, error))
+							}
+						}
+					}
+				}
+			}
+		}
+		if bad == "" && !reachesEntry {
+			bad = "no (*Parser).Parse* call provides the returned node"
+		}
+		switch {
+		case n == 0:
+			r.bad(rule, construct, w.pos(fn.Pos()), "no return found")
+		case bad != "":
+			r.bad(rule, construct, w.pos(fn.Pos()), bad)
+		default:
+			r.ok(rule, construct, w.pos(fn.Pos()), fmt.Sprintf("%d return(s), each the pair returned by the Parser method", n))
+		}
+	}
 }
